@@ -162,6 +162,77 @@ def pristine(scn, rec, cfg):
     return envelope.build_response(scn, rec, cfg), xf
 
 
+def hash_seed_problems(triples, seed):
+    """-> (number of process pairs compared, [(text, tags)])"""
+    import subprocess
+    import tempfile
+    import multicube
+    from scenarios import cat, numarr, scenario
+    cases = []
+    for (s, r, c) in triples[:3]:
+        resp, xf = pristine(s, r, c)
+        cases.append({"kind": "cube", "response": resp, "transforms": xf})
+    # numeric measures: a numeric-array response with several measures whose metadata name
+    # the items differently (as real payloads do), and a numeric-measure cube set whose
+    # members carry several measures (the default name of the restored rows dimension)
+    yk = dict(yvals=(0, 2), ymeasures=("sum", "mean", "stddev"), valid_counts=True)
+    sN, rN, _, e1 = multicube.records_for(scenario("hs_numarr", [numarr("N", 3), cat("B", 2)], **yk),
+                                          "c01", seed + 11, 1, 2)
+    sU, rU, _, e2 = multicube.records_for(scenario("hs_nub", [], **yk), "c01", seed + 12, 1, 2)
+    sB, rB, _, e3 = multicube.records_for(scenario("hs_cat", [cat("B", 3, miss=[2])], **yk),
+                                          "c01", seed + 13, 1)
+    if e1 or e2 or e3 or not (rN and rU and rB):
+        raise RuntimeError("no numeric-measure records: %s %s %s" % (e1, e2, e3))
+    resp = envelope.build_response(sN, rN[0], configs.DEFAULT)
+    for mname, m in resp["result"]["measures"].items():
+        subs = (m.get("metadata", {}).get("references", {}) or {}).get("subreferences")
+        if subs:
+            for k, sr in enumerate(subs):
+                sr["name"] = "%s as listed under %s" % (sr["name"], mname)
+    cases.append({"kind": "cube", "response": resp, "transforms": {}})
+    cases.append({"kind": "set", "transforms": [{}, {}],
+                  "responses": [envelope.build_response(sU, rU[0], configs.DEFAULT),
+                                envelope.build_response(sB, rB[0], configs.DEFAULT)]})
+    d = tempfile.mkdtemp(prefix="verif.hash.%d." % os.getpid(), dir=os.environ.get("VERIF_SCRATCH", "/var/tmp"))
+    try:
+        f = os.path.join(d, "cases.json")
+        json.dump(cases, open(f, "w"))
+        docs = {}
+        procs = {hs: subprocess.Popen([sys.executable, os.path.join(HERE, "hashseed_probe.py"), f],
+                                      stdout=subprocess.PIPE, stderr=subprocess.PIPE, text=True,
+                                      env=dict(os.environ, PYTHONHASHSEED=str(hs)))
+                 for hs in (1, 2, 3, 4)}
+        for hs, p in procs.items():
+            out, err = p.communicate(timeout=300)
+            if p.returncode != 0:
+                raise RuntimeError("probe failed under PYTHONHASHSEED=%s: %s" % (hs, err[-500:]))
+            docs[hs] = json.loads(out)
+    finally:
+        import shutil
+        shutil.rmtree(d, ignore_errors=True)
+    problems = []
+    ref = docs[1]
+    for hs in (2, 3, 4):
+        for ci, (a, b) in enumerate(zip(ref, docs[hs])):
+            for pi, (pa, pb) in enumerate(zip(a, b)):
+                for name in pa:
+                    if pa[name] != pb.get(name):
+                        problems.append((
+                            "%s of partition %d of case %d (%s) differs between processes with "
+                            "PYTHONHASHSEED=1 and =%d: %s vs %s" %
+                            (name, pi, ci, cases[ci]["kind"], hs, str(pa[name])[:120],
+                             str(pb.get(name))[:120]),
+                            {"kind": "hash_seed", "prop": name, "source": "hash_seed"}))
+                        break
+    # one line per property is enough
+    seen, uniq = set(), []
+    for what, tags in problems:
+        if tags["prop"] not in seen:
+            seen.add(tags["prop"])
+            uniq.append((what, tags))
+    return 3, uniq
+
+
 def rejected_smoother_record(seed):
     """a 2-D response over a categorical-date columns dimension with a smoothing transform the
     library rejects: every read of a smoothed measure must raise, however often it is read"""
@@ -477,6 +548,17 @@ def run_check(tier, seed, t0):
             if rec.events:
                 cache_traces.append({"id": len(cache_traces) + 1, "ev": rec.events[:30000],
                                      "src": "random"})
+    # results must not depend on the interpreter's hash seed either (iteration over a set of
+    # enum members or strings): the same inputs evaluated in processes with different
+    # PYTHONHASHSEED values give identical documents
+    n_hash = 0
+    try:
+        n_hash, hash_problems = hash_seed_problems(triples, seed)
+    except Exception as e:  # noqa
+        print("MACHINERY-ERROR: hash-seed probe failed: %r" % (e,), file=sys.stderr)
+        return 2
+    for what, tags in hash_problems:
+        mismatches.append((Mismatch(prop_id, None, what, {}, tags=tags), {}))
     # the same response as dict, as JSON text and inside a {"value": ...} envelope
     n_forms = 0
     from cr.cube.cube import Cube, CubeSet
@@ -633,6 +715,7 @@ def run_check(tier, seed, t0):
         "generated": stats["generated"], "distinct": n_replayed,
         "evaluations": n_reads + n_random, "nontrivial": n_replayed + n_random,
         "features": {"schedules": n_replayed, "random_schedules": n_random, "forms": n_forms,
+                     "hash_seed_process_pairs": n_hash,
                      "cache_traces": len(cache_traces), "cache_streams": n_streams,
                      "cache_events": total, "repo_test_traces": len(repo_traces),
                      "hook_installed": int(hook_ok),
